@@ -350,11 +350,38 @@ class Check(DiffCheck):
             if own and n == 0:
                 if ret != 0 or F2 != F: return 'bytes == 0 must return 0 and change nothing'
                 return None
+            # Slots a correct extraction of n bytes needs (common/iovector.cpp do_extract_front/back as shipped): one per
+            # element of the extracted RANGE = the shortest run of elements from that end whose lengths add up to >= n
+            # (all elements if n > sum), zero-length elements inside the range included (each is handed to the callback as
+            # a whole element), elements beyond the boundary NOT included (a request that ends exactly on an element
+            # boundary stops there).  n == 0 needs none.  The flat string does not know the element list, so this is
+            # computed from the element lengths the implementation printed for the previous state.
+            order = lens if front else lens[::-1]
+            need = 0
+            if n > 0:
+                need, acc = len(order), 0
+                for j, l in enumerate(order):
+                    if n - acc <= l: need = j + 1; break
+                    acc += l
+            slots = N
+            if own and N == 0:
+                # the owning wrapper allocates iovcnt() slots (do_malloc) when the out view has none; iovcnt() >= need
+                if ret == -1 and not alloc_ok(16 * ne):
+                    if F2 != F or G != b'' or r['a']: return '-1 from a failed slot allocation must leave both vectors untouched'
+                    return None
+                if ret == -1: return '-1 although the slot array could be allocated'
+                slots = ne
             if ret == -1:
-                if (F2 + G if not front else G + F2) != F: return 'after -1 the two vectors do not partition the original bytes'
-                if not own and N >= ne and ne > 0: return '-1 although the out view has a slot for every element'
-                if own and N == 0 and alloc_ok(16 * ne): return '-1 although the slot array could be allocated'
-                if own and N >= ne and N > 0 and ne > 0: return '-1 although the out view has a slot for every element'
+                if slots >= need:
+                    return ('-1 although the out view has %d slots and the extracted range (%d bytes from the %s of elements %s) needs %d'
+                            % (slots, min(n, S), 'front' if front else 'back', shape_s(lens), need))
+                # too few slots: the shipped code has then moved exactly `slots` whole elements into the out view
+                moved = sum(order[:slots])
+                if front:
+                    if G != F[:moved] or F2 != F[moved:]: return 'after -1 the out view / the vector are not the first %d whole elements / the rest' % slots
+                else:
+                    if G != F[S - moved:] or F2 != F[:S - moved]: return 'after -1 the out view / the vector are not the last %d whole elements / the rest' % slots
+                if len(r['a']) != slots: return 'after -1 the out view has %d elements, %d slots were given' % (len(r['a']), slots)
                 return None
             k = min(n, S)
             if ret != k: return 'returned %d, flat string gives %d' % (ret, k)
@@ -362,6 +389,7 @@ class Check(DiffCheck):
                 if G != F[:k] or F2 != F[k:]: return 'extracted / remaining bytes differ from take/drop %d' % k
             else:
                 if G != F[S - k:] or F2 != F[:S - k]: return 'extracted / remaining bytes differ from the last / first bytes'
+            if len(r['a']) > slots: return 'out view has %d elements but only %d slots were given' % (len(r['a']), slots)
         elif op in ('xfo', 'xbo'):
             k = min(n, S)
             room = int(args[1]) - int(args[2])           # free iovs[] slots of the destination vector
@@ -402,7 +430,18 @@ class Check(DiffCheck):
             if ret < 0: return 'returned %d with %d out slots' % (ret, slots)
             if ret != len(G): return 'returned %d but the out view has %d bytes' % (ret, len(G))
             if not want.startswith(G): return 'out view is not a prefix of the requested byte range'
-            if slots >= ne and G != want: return 'out view differs from bytes [%d, %d+%d) although slots suffice' % (off, off, count)
+            # slots the byte range needs (slice() as shipped): one per element from the one that holds byte `off` up to the
+            # one in which the range ends (or the last one), zero-length elements in between included, none before/after
+            pos, i = 0, 0
+            while i < ne and pos + lens[i] <= off: pos += lens[i]; i += 1
+            pieces = ([lens[i] - (off - pos)] + lens[i + 1:]) if i < ne else []
+            need, rem = len(pieces), count
+            for j, p in enumerate(pieces):
+                if rem <= p: need = j + 1; break
+                rem -= p
+            if slots >= need and G != want:
+                return 'out view differs from bytes [%d, %d+%d) although it has %d slots and the range needs %d (elements %s)' % (off, off, count, slots, need, shape_s(lens))
+            if len(r['a']) > slots: return 'out view has %d elements but only %d slots were given' % (len(r['a']), slots)
         elif op in ('mto', 'mtov', 'ptov'):
             nn = n if op == 'mto' else int(args[1])
             T = len(dst_flat())
